@@ -101,6 +101,13 @@ def corpus():
     cs.append(_spline_case("spline", es, ns, [d], wts[:1], None, [[x + 1 / 128 for x in fe9], fn9], 0.5, 0.0))     # as many separate forces as data, weighted
     # non-uniform weights that are all tiny in absolute value (sigma ~ 1e5): still non-uniform
     cs.append(mk_trend(es, ns, d, [x * 1e-10 for x in wts[0]], 2, "corpus-trend-tiny-weights"))
+    # surveys in metres, degrees 3 and 4: columns from 1 to 1e13 (unit-variance columns are what the estimator is specified to work with)
+    for deg_, scale_, nx_ in ((4, 2000.0, 6), (3, 150000.0, 5), (4, 12000.0, 7)):
+        ge = [(-1.0 + 2.0 * i / (nx_ - 1) + (0.03125 if i % 2 else 0.0)) * scale_ for i in range(nx_)]
+        ue, un = [x for _ in ge for x in ge], [y * 0.75 for y in ge for _ in ge]
+        ud = [rng.randint(-64, 64) / 4.0 for _ in ue]
+        cs.append(mk_trend(ue, un, ud, None, deg_, f"corpus-trend-metres-{deg_}"))
+        cs.append(mk_trend(ue, un, ud, [rng.randint(1, 32) / 8.0 for _ in ue], deg_, f"corpus-trend-metres-{deg_}-weights"))
     cs.append(_spline_case("spline", es, ns, [d], [[x * 1e-12 for x in wts[0]]], None, [[x + 1 / 128 for x in fe], fn_], 0.5, 0.0))
     cs.append(_spline_case("vector", es, ns, [d, d[::-1]], [[x * 1e-9 for x in wts[0]], [x * 1e-9 for x in wts[1]]], None, [[x + 1 / 128 for x in fe], fn_], 0.5, 4.0))
     # a datum switched off by a vanishing weight (its value is a fill value of any size): the fit is the fit without it
@@ -137,6 +144,9 @@ def generate(rng, tier):
             deg = rng.randint(0, 4)
             npar = (deg + 1) * (deg + 2) // 2
             es, ns = pts(rng, npar + rng.randint(3, 12), scale=2.0 if deg >= 3 else 8.0)
+            if deg >= 2 and rng.random() < 0.35:
+                # a survey in metres: the monomial columns differ by many orders of magnitude (the estimator scales its columns)
+                es, ns = pts(rng, npar + rng.randint(6, 14), scale=rng.choice([512.0, 2048.0, 16384.0]))
             d = [rng.randint(-64, 64) / 4.0 for _ in es]
             w = [rng.randint(1, 32) / 8.0 for _ in es] if weighted else None
             if weighted and rng.random() < 0.2:
@@ -290,10 +300,11 @@ def compare(case, io, mo):
         # scikit-learn's LinearRegression solves with lstsq(cond=1e-6)-like singular-value truncation on the column-scaled,
         # weight-scaled Jacobian: beyond ~1e5 the undamped answer legitimately departs from the exact optimum ("whenever that
         # problem is well conditioned")
+        # (the conditioning that counts is that of the problem the estimator is specified to solve: columns scaled to unit variance - a Jacobian of
+        # monomials in metres is hopeless as it stands and perfectly ordinary once its columns are scaled)
         sd = J.std(axis=0)
         Js = J / np.where(sd == 0, 1.0, sd)
-        cond = max(np.linalg.cond(Js * (np.sqrt(w)[:, None] if w is not None else 1.0)),
-                   np.linalg.cond(J * (np.sqrt(w)[:, None] if w is not None else 1.0)))
+        cond = np.linalg.cond(Js * (np.sqrt(w)[:, None] if w is not None else 1.0))
         if cond > 1e5 and not alpha:
             return "amb"
         return f"diff:predictions of the fitted parameters differ by {np.max(np.abs(pi - pm))} (scale {sc})"
@@ -320,12 +331,16 @@ def oracle(case, io):
     var = J.var(axis=0)
     s = np.where(var == 0, 1.0, var)
     a = 0.0 if alpha is None else alpha
-    A = J.T @ (ws[:, None] * J) + a * np.diag(s)
+    # independently assembled and solved problem, in units in which every column has largest entry 1 (p = q / cmax; any diagonal scaling
+    # gives the same optimum, this one is not the estimator's)
+    cmax = np.max(np.abs(J), axis=0)
+    cmax = np.where(cmax == 0, 1.0, cmax)
+    Jn = J / cmax
+    A = Jn.T @ (ws[:, None] * Jn) + a * np.diag(s / cmax ** 2)
     cond = np.linalg.cond(A)
     if cond > 1e10:
         return None
-    # independently assembled and solved problem
-    ref = np.linalg.solve(A, J.T @ (ws * d))
+    ref = np.linalg.solve(A, Jn.T @ (ws * d)) / cmax
     sig = _sig(w, d)
     sc = max(1.0, float(np.max(np.abs(d[sig]))))
     Jfull = J
